@@ -69,9 +69,19 @@ def worker(job):
         seen = set()
         n0 = len(agent.reqs)
         sent_oids = []
+        refused_at = []   # indices (into sent_oids) before which a refused request may have consumed a salt value
         for i in range(job["n"]):
             if i % 200 == 0:
                 prog.mark({"cfg": cfg.key(), "inst": inst, "i": i})
+            if i in (job["n"] // 3, job["n"] // 3 + 7):
+                # a request that does not fit the buffer (SnmpEncodeError, nothing sent): the key installation must survive it
+                refused_at.append(len(sent_oids))
+                try:
+                    sock.send_get_many(["1.3.6.1.4.1.%d.%d.%d.%d.%d.%d" % (k, k, k, k, k, k) for k in range(700)])
+                    bad("oversize", "an oversized request was accepted")
+                except Exception as e:
+                    if "EncodeError" not in type(e).__name__:
+                        bad("oversize", "an oversized request raised %r" % e)
             r = rng.random()
             oid = M.gen_oid(rng, 8, 12)
             state["reply"] = r < 0.08
@@ -113,6 +123,7 @@ def worker(job):
         reqs = agent.reqs[n0:]
         if inst == 0:
             reqs, sent_oids = pre + reqs, [None] * len(pre) + sent_oids
+            refused_at = [x + len(pre) for x in refused_at]
         if len(reqs) != len(sent_oids):
             res.setdefault("inconclusive", []).append("%d datagrams sent, %d seen by the agent (socket buffer overflow?)" % (len(sent_oids), len(reqs)))
             continue
@@ -140,8 +151,12 @@ def worker(job):
                 ctr, mod = int.from_bytes(salt[4:], "big"), 1 << 32
             else:
                 ctr, mod = int.from_bytes(salt, "big"), 1 << 64
-            if prev is not None and ctr != (prev + 1) % mod:
-                bad("salt_step", "datagram %d: salt counter %d after %d (must advance by one)" % (i, ctr, prev), rq.raw)
+            # a request refused with SnmpEncodeError just before this datagram may have consumed a counter value
+            # (it never became a message): the step is 1 plus at most that many
+            slack = refused_at.count(i)
+            if prev is not None and not (1 <= (ctr - prev) % mod <= 1 + slack):
+                bad("salt_step", "datagram %d: salt counter %d after %d (must advance by one%s)" % (
+                    i, ctr, prev, "; %d refused request(s) in between" % slack if slack else ""), rq.raw)
             prev = ctr
             if not rq.decrypt_ok:
                 bad("decrypt", "datagram %d does not decrypt under the reference cipher: %s" % (i, rq.err), rq.raw)
